@@ -11,23 +11,29 @@ def sh(cmd, cwd, t=900):
     p = subprocess.run(cmd, cwd=cwd, shell=True, env=env, stdout=subprocess.PIPE, stderr=subprocess.STDOUT, text=True, timeout=t)
     return p.returncode, p.stdout
 ran = []
-sh("git checkout -q -- . && rm -f zz_demo_test.go", wt)
-rc, _ = sh("git apply --check %s/patch.diff" % src, wt); assert rc == 0, "patch does not apply"
-sh("git apply %s/patch.diff" % src, wt)
-rc1, o1 = sh("go build ./... && go test -count=1 ./...", wt); ran.append(("existing tests with change", rc1 == 0))
-shutil.copy(src + "/demo_test.go", wt + "/zz_demo_test.go")
-rc2, o2 = sh("go test -count=1 . 2>&1 | tail -15", wt); demo_fails = "FAIL" in o2 or "panic" in o2; ran.append(("demo fails with change", demo_fails))
-sh("git apply -R %s/patch.diff" % src, wt)
-rc3, o3 = sh("go test -count=1 .", wt); ran.append(("demo passes without change", rc3 == 0))
-sh("rm -f zz_demo_test.go; git checkout -q -- .", wt)
-ok = rc1 == 0 and demo_fails and rc3 == 0
-print("confirmed" if ok else "NOT CONFIRMED", ran)
-if not ok:
-    sys.exit(1)
-os.makedirs(dst, exist_ok=True)
-for f in ("patch.diff", "demo_test.go", "notes.md"):
-    if os.path.exists(src + "/" + f):
-        shutil.copy(src + "/" + f, dst + "/" + f)
+if not os.path.isdir(wt):
+    # re-run of a kept seed: confirmed earlier, the worktree is gone
+    assert os.path.exists(dst + "/patch.diff"), "no such seed"
+    src = None
+if src is not None:
+  sh("git checkout -q -- . && rm -f zz_demo_test.go", wt)
+  rc, _ = sh("git apply --check %s/patch.diff" % src, wt); assert rc == 0, "patch does not apply"
+  sh("git apply %s/patch.diff" % src, wt)
+  rc1, o1 = sh("go build . ./cmd/... && go test -count=1 . ./cmd/...", wt); ran.append(("existing tests with change", rc1 == 0))
+  shutil.copy(src + "/demo_test.go", wt + "/zz_demo_test.go")
+  rc2, o2 = sh("go test -count=1 . 2>&1 | tail -15", wt); demo_fails = "FAIL" in o2 or "panic" in o2; ran.append(("demo fails with change", demo_fails))
+  sh("git apply -R %s/patch.diff" % src, wt)
+  rc3, o3 = sh("go test -count=1 .", wt); ran.append(("demo passes without change", rc3 == 0))
+  sh("rm -f zz_demo_test.go; git checkout -q -- .", wt)
+  ok = rc1 == 0 and demo_fails and rc3 == 0
+  print("confirmed" if ok else "NOT CONFIRMED", ran)
+  if not ok:
+      sys.exit(1)
+if src is not None:
+  os.makedirs(dst, exist_ok=True)
+  for f in ("patch.diff", "demo_test.go", "notes.md"):
+      if os.path.exists(src + "/" + f):
+          shutil.copy(src + "/" + f, dst + "/" + f)
 rc, _ = sh("git apply %s/patch.diff" % dst, "/repo"); assert rc == 0, "does not apply to /repo"
 results = {}
 try:
@@ -47,8 +53,10 @@ finally:
 notes = open(dst + "/notes.md").read() if os.path.exists(dst + "/notes.md") else ""
 meta_path = dst + "/meta.json"
 meta = json.load(open(meta_path)) if os.path.exists(meta_path) else {}
+if ran:
+    meta["confirmed"] = dict(ran)
 meta.update({"property": prop, "source": "independent sub-agent given only the property text and a scratch worktree",
-             "confirmed": dict(ran), "needs": notes.split("\n")[0:0],
+             "summary": notes.strip().split("\n")[0][:300],
              "ran": "tools/seedrun.py %s %s %s" % (prop, m, ",".join(checks))})
 meta.setdefault("checks", {}).update(results)
 json.dump(meta, open(meta_path, "w"), indent=1)
